@@ -6,6 +6,9 @@ set -u
 PATCH=$1; PROP=$2; TIER=${3:-quick}
 R=/tmp/mutrun
 mkdir -p $R
+# one run at a time: the scratch copies are shared
+exec 9>$R/.lock
+flock 9
 if [ ! -d $R/repo ]; then git -C /repo worktree add -f --detach $R/repo HEAD >/dev/null 2>&1 || exit 2; fi
 git -C $R/repo checkout -q --detach $(git -C /repo rev-parse HEAD) 2>/dev/null
 git -C $R/repo checkout -q -- . ; git -C $R/repo clean -fdq -e target
